@@ -222,19 +222,21 @@ def rule_Q3(ctx) -> None:
     for q in ("_preprocess_single", "_len_preprocessed_single"):
         fn = mod.func(q)
         params = [a.arg for a in fn.args.args]
-        paths = Interp(mod, bindings={N(params[0]): "message"}).run(fn)
-        ctx.count(len(paths))
         conv = {"datetime": set(), "timedelta": set()}
-        for p in paths:
-            for cls_ in ("datetime", "timedelta"):
-                atom = ("call", N("isinstance"), (N(params[2]), N(cls_)), ())
-                if p.valuation.get(atom):
-                    callees = {dotted(e.data[1]) for e in p.events if e.kind == "call"}
-                    conv[cls_] |= {c for c in callees if c.endswith("from_datetime") or c.endswith("from_timedelta")}
-                    # wraps must not have been consulted before
-                    keys = list(p.valuation)
-                    if N(params[1]) in keys and keys.index(N(params[1])) < keys.index(atom):
-                        conv[cls_].add("wraps-first")
+        for cls_, other in (("datetime", "timedelta"), ("timedelta", "datetime")):
+            atom = ("call", N("isinstance"), (N(params[2]), N(cls_)), ())
+            atom_o = ("call", N("isinstance"), (N(params[2]), N(other)), ())
+            # a value of that class, whatever `wraps` says: every path that produces something converts it first
+            paths = Interp(mod, bindings={N(params[0]): "message"}, assume={atom: True, atom_o: False, ("op", "is", N(params[2]), C(None)): False}).run(fn)
+            ctx.count(len(paths))
+            for p in paths:
+                if p.outcome != "return":
+                    continue
+                callees = {dotted(e.data[1]) for e in p.events if e.kind == "call"}
+                got = {c for c in callees if c.endswith("from_datetime") or c.endswith("from_timedelta")}
+                conv[cls_] |= got
+                if not got or any(c.endswith("_get_wrapper") for c in callees):
+                    conv[cls_].add("wraps-first")
         ok = conv["datetime"] == {"_Timestamp.from_datetime"} and conv["timedelta"] == {"_Duration.from_timedelta"}
         if ok:
             ctx.proved("Q3", f"{q}:datetime/timedelta-dispatch", mod.loc(fn))
